@@ -52,8 +52,9 @@ def _worker(args):
       if rec.get("nontrivial"):
         out["nontrivial"].append(json.dumps(rec["actions"], sort_keys=True, default=str))
         if len(out["samples"]) < 2:
-          out["samples"].append({"actions": rec["actions"], "stored": rec["res"].stored[:6],
-                                 "undo": (rec["res"].undo or [])[:6], "steps": (rec["res"].steps or [])[:8]})
+          out["samples"].append({"actions": rec["actions"], "stored": (rec["res"].stored or [])[:6],
+                                 "undo": (rec["res"].undo or [])[:6], "error": rec["res"].error,
+                                 "steps": (rec["res"].steps or [])[:8]})
     if tie is not None:
       ties.append((seed, tie, h))
   # run the model driver once for all histories of this worker
@@ -127,8 +128,25 @@ def report(ck, merged, prop, tie_kinds, lean_ok=True):
   for (p, sig, detail, replay, seed) in merged["findings"]:
     if p == prop:
       ck.violation(sig, detail, dict(replay, seed=seed))
-  probs = [t for t in merged["tie"] if t[0] in tie_kinds]
+  # a model/engine disagreement at or after a bundle where the real engine violates a property
+  # (reported above, possibly as a known finding) is explained by that violation
+  first_bad = {}
+  for (p, sig, detail, replay, seed) in merged["findings"]:
+    bi = replay.get("bundle_index", 0)
+    first_bad[seed] = min(first_bad.get(seed, bi), bi)
+  probs = []
+  explained = 0
+  for t in merged["tie"]:
+    if t[0] not in tie_kinds:
+      continue
+    seed = t[3]
+    bi = len(t[2]["history"]) - 1
+    if seed in first_bad and bi >= first_bad[seed]:
+      explained += 1
+      continue
+    probs.append(t)
   ck.cov["counters"]["model_impl_disagreements"] = len(probs)
+  ck.cov["counters"]["disagreements_explained_by_reported_violation"] = explained
   if probs and not ck.has_impl_violation():
     kind, detail, replay, seed = probs[0]
     ck.broken("correspondence EngineModel vs engine (%s)" % kind,
